@@ -900,7 +900,8 @@ MANIFEST = {
             "UniformRestore reproduces every record of a well-formed dictionary byte for byte (C17_snapshot_roundtrip) and UserDictManager "
             "Backup -> Restore into an empty dictionary reproduces exactly the keys with their commit counts (C17_backup_restore_into_empty); "
             "the import rule (C17_import_semantics) and the export/import line codec (C17_export_import_line); over every history of "
-            "backup/restore/synchronize/export/merge operations no dictionary loses an entry or lowers a magnitude (C17_history_never_loses); "
+            "backup/restore/synchronize/export/merge operations - also on a dictionary that carries another installation's /user_id "
+            "(OForeign: the next Backup re-creates its metadata) - no dictionary loses an entry or lowers a magnitude (C17_history_never_loses); "
             "and, given the constructor facts extracted from the current source (C17_members_initialised, "
             "C17_ctor_initialises_merged_entries), a merge reads no uninitialised member and is independent of the storage's previous "
             "content (C17_merge_reads_initialised).  Whole files: Export then Import into any dictionary follows the import rule with "
